@@ -59,7 +59,7 @@ class CallGen:
         name = self.ch.choice(["vf", "vF", "satU", "lowBits"], "fname") + f"{self.uid}_{self.n}"
         kind = ch.weighted([("ret_param", 4), ("ret_cast", 3), ("ret_bin", 3), ("local", 3), ("branch", 3), ("postinc", 4),
                             ("nested", 4 if self.value_funcs() else 0), ("loop", 2), ("void_write", 2), ("pc_read", 1), ("ext_write_ret", 3),
-                            ("ret_const", 2), ("mixed_sign", 2)], "fkind")
+                            ("ret_const", 2), ("mixed_sign", 3)], "fkind")
         A = self.cfg == "A"
         if kind == "ret_param":
             P = ch.choice(ALL_T, "P")
@@ -279,7 +279,7 @@ class CallGen:
         A = self.pick(ALL_T, lambda a: not (self.cfg == "A" and f5a(a, P)), label)
         return A
 
-    def gen_caller(self, allow_bundled=True, force_form=None):
+    def gen_caller(self, allow_bundled=True, force_form=None, force_func=None):
         """-> dict(text, stmts, outs: [(name, type)], convention: bool, uses: [fnames], ncalls)"""
         ch = self.ch
         names_used = set()
@@ -300,8 +300,12 @@ class CallGen:
                             ("const_cond_calls", 2), ("reassign", 3), ("void_call", 4 if voids else 0), ("loop_cond_call", 2),
                             ("branch_call", 4 if voids else 0), ("two_byref_calls", 3 if voids else 0), ("logic_calls", 3),
                             ("same_arg", 3 if any(len(f["params"]) == 2 for f in user) else 0)], "cform")
-        if force_form == "two_byref_calls" and voids:
+        if force_form in ("two_byref_calls", "void_call", "branch_call") and voids:
             form = force_form
+        if force_form == "same_arg" and any(len(f["params"]) == 2 for f in user):
+            form = force_form
+        if force_func is not None:
+            form = "single"
         stmts = []
         srcs = ["RssV", "RttV"]
 
@@ -333,7 +337,7 @@ class CallGen:
 
         convention = True
         if form == "single":
-            f = ch.choice(pool, "f")
+            f = force_func if force_func is not None else ch.choice(pool, "f")
             out = fresh(5)
             stmts.append(("decl", f["ret"], out, call(f, 0)))
             outs = [(out, f["ret"])]
